@@ -52,7 +52,7 @@ def rule_eligible_only(ctx):
     rets = []
     for bi, b in enumerate(f.blocks):
         for s in b["s"]:
-            if s["k"] == "assign" and s["p"]["l"] == 0 and not s["p"].get("pr"):
+            if s["k"] == "assign" and s["p"]["l"] in Q.ret_locals(f) and not s["p"].get("pr"):
                 rets.append((bi, T.rvalue(s["r"])))
         t = b["t"]
         if t["k"] == "call" and t["dest"]["l"] == 0 and not t["dest"].get("pr"):
